@@ -138,6 +138,7 @@ def run_shard(task):
     }
     try:
         os.environ["VERIF_TIER"] = task.get("tier", "quick")
+        os.environ["VERIF_SHARD_SALT"] = str(task["seed"])
         prepare_env()
         import hypothesis
         from hypothesis import HealthCheck, Phase, given, settings
